@@ -67,7 +67,8 @@ class RemoteLogHandler(mlzlog.Handler):
             subscriptions = self.subscriptions[modname]
         except KeyError:
             return
-        for conn, lev in subscriptions.items():
+        # (a copy: connections may change their level or disappear while a record is handled)
+        for conn, lev in list(subscriptions.items()):
             if record.levelno >= lev:
                 self.send_log(  # pylint: disable=not-callable
                     conn, modname, LEVEL_NAMES.get(record.levelno, record.levelname.lower()),
